@@ -8,7 +8,9 @@ import ExoVerif.Model.Distribution
                                      sdk.ValidateDenom with the default expression [a-zA-Z][a-zA-Z0-9/:._-]{2,127})
     x/exomint/types/msg.go: MsgUpdateParams.ValidateBasic (what baseapp checks before the handler of a transaction's
                                      message runs: `mintDeliver`)
-    x/feedistribution/keeper/msg_update_params.go: msgServer.UpdateParams
+    x/feedistribution/keeper/msg_update_params.go: msgServer.UpdateParams (+ x/feedistribution/types/params.go:
+                                     Params.Validate — community tax in [0, 1] — and types/msg_update_params.go:
+                                     MsgUpdateParams.ValidateBasic)
 
   and of histories made of these messages, fee income and blocks (`runOps`). The hooks read their parameters
   from the store at every notification (hooks.go / impl_epochs_hooks.go: `GetParams(ctx)`), so the configuration
@@ -89,18 +91,61 @@ unknown-identifier rule remains. -/
 def mintDeliver (viaTx : Bool) (known : String → Bool) (prev : MintParams) (m : MintMsg) : Option MintParams :=
   if viaTx && !m.validateBasic then none else mintUpdateParams known prev m
 
-/-- x/feedistribution Params -/
+/-- x/feedistribution Params as stored -/
 structure DistrParams where
   id : String         -- EpochIdentifier
   tax : Int           -- CommunityTax, raw LegacyDec
 deriving Repr, Inhabited, DecidableEq
 
-/-- feedistribution/keeper/msg_update_params.go: msgServer.UpdateParams (authority check aside): an identifier
-x/epochs does not know is refused (ErrEpochNotFound, nothing written); otherwise the message's params are stored
-as they are (types/params.go: Validate is `return nil` — so MsgUpdateParams.ValidateBasic checks nothing about
-them either — and is not called here). -/
-def distrUpdateParams (known : String → Bool) (_prev : DistrParams) (m : DistrParams) : Option DistrParams :=
-  if known m.id then some m else none
+/-- the Params of a feedistribution MsgUpdateParams: the community tax may be a nil `LegacyDec` (an absent /
+empty field of the decoded message: LegacyDec.Unmarshal leaves it nil) -/
+structure DistrMsg where
+  id : String
+  tax : Option Int
+deriving Repr, Inhabited, DecidableEq
+
+/-- why a feedistribution MsgUpdateParams is refused -/
+inductive DistrRefusal where
+  | taxOutOfRange     -- Params.Validate: "community tax must be in [0, 1]"
+  | epochNotFound     -- types.ErrEpochNotFound
+deriving Repr, Inhabited, DecidableEq
+
+/-- feedistribution/types/params.go: Params.Validate, the rejection condition
+`!p.CommunityTax.IsNil() && (p.CommunityTax.IsNegative() || p.CommunityTax.GT(sdk.OneDec()))`:
+a nil tax passes, otherwise the raw value must lie in [0, 10^18]. -/
+def distrTaxOutOfRange : Option Int → Bool
+  | none => false
+  | some t => decide (t < 0) || decide (PREC < t)
+
+/-- feedistribution/types/params.go: Params.Validate (`true` = nil error) -/
+def DistrMsg.valid (m : DistrMsg) : Bool := !distrTaxOutOfRange m.tax
+
+/-- feedistribution/types/msg_update_params.go: MsgUpdateParams.ValidateBasic (authority address aside):
+`m.Params.Validate()` -/
+def DistrMsg.validateBasic (m : DistrMsg) : Bool := m.valid
+
+/-- keeper/params.go: SetParams — `k.cdc.MustMarshal(&params)`: LegacyDec.Marshal writes a nil value as "0", so a
+nil tax reads back (GetParams) as zero -/
+def DistrMsg.stored (m : DistrMsg) : DistrParams := { id := m.id, tax := m.tax.getD 0 }
+
+/-- feedistribution/keeper/msg_update_params.go: msgServer.UpdateParams (authority check aside), in the order of
+the code: stateless validation first (`req.Params.Validate()`: a community tax that is negative or above 1 is
+refused, nothing written), then the identifier must be one x/epochs knows (ErrEpochNotFound, nothing written),
+then SetParams stores the message's params. (Repair of F-17c, fb3f03d.) -/
+def distrUpdateParams (known : String → Bool) (_prev : DistrParams) (m : DistrMsg) : Except DistrRefusal DistrParams :=
+  if !m.valid then .error .taxOutOfRange
+  else if !known m.id then .error .epochNotFound
+  else .ok m.stored
+
+/-- the handler BEFORE the repair of F-17c (Params.Validate was `return nil` and was not called): any tax was
+stored. Kept for the regression theorems `C17_regression_F17c_…`. -/
+def distrUpdateParamsPreFix (known : String → Bool) (_prev : DistrParams) (m : DistrMsg) : Except DistrRefusal DistrParams :=
+  if !known m.id then .error .epochNotFound else .ok m.stored
+
+/-- delivery of the message: in a transaction ValidateBasic comes first (baseapp.runTx: validateBasicTxMsgs),
+other callers reach the handler directly. -/
+def distrDeliver (viaTx : Bool) (known : String → Bool) (prev : DistrParams) (m : DistrMsg) : Except DistrRefusal DistrParams :=
+  if viaTx && !m.validateBasic then .error .taxOutOfRange else distrUpdateParams known prev m
 
 /-- the parameters of both modules -/
 structure Params where
@@ -119,7 +164,7 @@ def knownId (es : List Epochs.EpochInfo) (id : String) : Bool := es.any (fun e =
 /-- what happens in a history, between and at blocks -/
 inductive HOp where
   | mintParams (viaTx : Bool) (m : MintMsg)   -- x/exomint MsgUpdateParams, in a transaction / handler called directly
-  | distrParams (m : DistrParams)   -- x/feedistribution MsgUpdateParams
+  | distrParams (viaTx : Bool) (m : DistrMsg)  -- x/feedistribution MsgUpdateParams, in a transaction / handler called directly
   | fee (amt : Int)                 -- outside fee income reaching the fee collector
   | block (b : BlockIn)             -- the next BeginBlock
 deriving Repr, Inhabited
@@ -136,15 +181,15 @@ def applyMint (viaTx : Bool) (es : List Epochs.EpochInfo) (p : Params) (m : Mint
   | some mp => { p with mint := mp }
   | none => p
 
-def applyDistr (es : List Epochs.EpochInfo) (p : Params) (m : DistrParams) : Params :=
-  match distrUpdateParams (knownId es) p.distr m with
-  | some dp => { p with distr := dp }
-  | none => p
+def applyDistr (viaTx : Bool) (es : List Epochs.EpochInfo) (p : Params) (m : DistrMsg) : Params :=
+  match distrDeliver viaTx (knownId es) p.distr m with
+  | .ok dp => { p with distr := dp }
+  | .error _ => p
 
 /-- one step of a history; `none` = BeginBlock panicked -/
 def stepOp (native : String) (h : HS) : HOp → Option HS
   | .mintParams viaTx m => some { h with params := applyMint viaTx h.es h.params m }
-  | .distrParams m => some { h with params := applyDistr h.es h.params m }
+  | .distrParams viaTx m => some { h with params := applyDistr viaTx h.es h.params m }
   | .fee a => some { h with st := { h.st with fc := h.st.fc + a } }
   | .block b =>
     match block (cfgOf native h.params) h.es h.st b with
